@@ -60,7 +60,7 @@ def model_verdicts(name, items):
         for k, (prog, probes) in enumerate(items):
             f.write(f"Definition P{k} : program := {cprogram(prog)}.\n")
             for j, (first, names) in enumerate(probes):
-                f.write(f"Eval vm_compute in (match fresh_run 4000 P{k} {cs(first)} with None => ([\"OUT-OF-FUEL\"%string], []) | Some w => (paths_ok w, List.filter (fun t => negb (name_ok w (fst (fst t)) (snd (fst t)) (snd t))) "
+                f.write(f"Eval vm_compute in (match fresh_run 4000 P{k} {cs(first)} with None => ([\"OUT-OF-FUEL\"%string], []) | Some w => (paths_ok_all P{k} w, List.filter (fun t => negb (name_ok w (fst (fst t)) (snd (fst t)) (snd t))) "
                         f"{clist(names, lambda t: f'({cs(t[0])}, {cs(t[1])}, {cs(t[2])})')}) end).\n")
     rc, out = sh(['bash', '-c', f'ulimit -s unlimited 2>/dev/null; exec timeout 900 coqc -Q {COQ} EO -w -all {fn}'], cwd=COQ, timeout=1000)
     if rc != 0:
@@ -165,23 +165,30 @@ def run(tier):
     for e in entries:
         r = e['result']
         if not r.get('accepted'):
+            if 'driver_error' not in r and not e['name'].startswith('random'):
+                C.violation(f"tree '{e['name']}' is a valid specification but the generator rejects it: {r.get('error')}",
+                            dict(unit='protocol_code_generator', input=dict(tree=e['name'], xml=tree_xml(e['tree']))))
+            elif 'driver_error' not in r:
+                C.harness_failure('random-tree-rejected', f"tree {e['name']}: {r.get('error')}")
             continue
         for out in r.get('results', []):
+            if 'probes' not in out:
+                C.harness_failure('namespace-probe', f"tree {e['name']}: no probes in the driver result: {str(out)[:200]}")
             for pr in out.get('probes', []):
                 nprobe += 1
                 npaths += len(pr.get('modules', []))
                 if pr['errors']:
                     C.violation(f"tree '{e['name']}': importing {pr['first']} first, then eolib, failed: {pr['errors'][0]}",
                                 dict(unit='eolib package', input=dict(tree=e['name'], first_import=pr['first'], xml=tree_xml(e['tree']))))
-                for m in pr['path_mismatches'][:1]:
+                for m in pr['path_mismatches']:
                     C.violation(f"tree '{e['name']}', first import {pr['first']}: documented module path {m['path']} "
                                 f"{'resolves to ' + m['resolves_to'] if 'resolves_to' in m else 'is not reachable (' + m.get('why', '') + ')'}",
                                 dict(unit='eolib package', input=dict(tree=e['name'], first_import=pr['first'], path=m['path'], xml=tree_xml(e['tree']))),
                                 key='F5-submodules-shadowed-by-star-imports')
-                for m in pr['name_mismatches'][:1]:
+                for m in pr['name_mismatches']:
                     C.violation(f"tree '{e['name']}', first import {pr['first']}: public name {m['name']} defined in {m['defined_in']} is not that object in {m.get('looked_up_in')}: {m.get('got', m.get('why'))}",
                                 dict(unit='eolib package', input=dict(tree=e['name'], first_import=pr['first'], name=m['name'], xml=tree_xml(e['tree']))),
-                                key=('names-lost-when-a-type-references-a-descendant-directory' if e['name'] == 'descendant-reference' else
+                                key=('names-lost-when-a-type-references-a-descendant-directory' if e['name'] == 'descendant-reference' and m['name'] == 'InitInitClientPacket' else
                                      'type-name-shadows-public-function' if e['name'] == 'function-name-collision' and m['name'] == 'interleave' else None))
     C.stream('oracle.namespace-probes', nprobe, nprobe, sample=dict(tree=entries[0]['name'], firsts=entries[0]['jobs'][0]['firsts'][:4]))
     C.cov['distribution'] = dict(fresh_interpreters=nprobe, module_paths_checked=npaths, trees=len(entries))
